@@ -2,9 +2,9 @@
 
 T1  translate/c19_py2g.py : Row methods + helper functions of sqlframe (core.REPO) AND of the installed PySpark
                             -> Gen/C19Sf.v, Gen/C19Ps.v  (same Gallina vocabulary, SF.C19.PyVal / Script)
-Prf coq/props/C19.v       : row_body_rel / cmp_body_rel on the generated definitions; C19_partial_rows (all scripts,
-                            all budgets, outside "Decimal placed directly into a Row"); C19_helpers_hold (all inputs,
-                            all checkRowOrder/rtol/atol); C19_refuted_decimal*.
+Prf coq/props/C19.v       : row_body_rel / cmp_body_rel on the generated definitions; C19_rows_hold (all scripts, all
+                            budgets); C19_helpers_hold (all inputs, all checkRowOrder/rtol/atol); C19_holds : C19_full.
+                            (The two deviations found earlier were repaired in /repo; their witnesses stay in CORPUS.)
 T3  this file             : generated scripts / near-miss row-list pairs / schema pairs run on BOTH real
                             implementations (sqlframe's and the installed PySpark's pure-Python classes, live, no JVM)
                             and on both generated models inside Coq (vm_compute).
@@ -818,8 +818,8 @@ def type_coq(o, T) -> str:
 # ------------------------------------------------------------------------------------------------
 
 CORPUS = [
-    ("new", [], [("x", ("lit", Decimal("1.5")))]),                                      # known deviation
-    ("call", ("setattr", ("new", [], []), "__fields__", ("lit", 3)), [("lit", 1)]),     # known deviation (message)
+    ("new", [], [("x", ("lit", Decimal("1.5")))]),                                      # repaired deviation (regression witness)
+    ("call", ("setattr", ("new", [], []), "__fields__", ("lit", 3)), [("lit", 1)]),     # repaired deviation (regression witness)
     ("repr", ("call", ("new", [("lit", "a"), ("lit", "b")], []), [("lit", Decimal("0.25")), ("lit", 1)])),
     ("repr", ("new", [], [("a", ("lit", 1)), ("b", ("lit", "x'y"))])),
     ("call", ("new", [("lit", "a")], []), [("lit", 1), ("lit", 2)]),
@@ -878,7 +878,8 @@ def has_noniterable_fields(s) -> bool:
 
 
 def script_signature(s, in_dom: bool, outs=None) -> str:
-    if has_top_decimal(s) and not in_dom:
+    # the (repaired) Decimal deviation: PySpark's outcome still holds a Decimal that sqlframe's has turned into a float
+    if has_top_decimal(s) and not in_dom and (outs is None or ("VDec" in outs[1] and "VDec" not in outs[0])):
         return KNOWN_DECIMAL
     if outs == ["(OExc EType)", "(OExc ELib)"] and has_noniterable_fields(s) and "call" in s_kinds(s):
         return KNOWN_MSG
@@ -956,16 +957,6 @@ def run(ctx: core.Ctx):
         proved = ctx.prove([gen("C19Sf"), gen("C19Ps"), core.COQ + "/props/C19.v"],
                            dep_theories=["C19/PyVal.v", "C19/Script.v", "C19/Check.v"])
     import os
-    refuted_ok = None
-    if proved:
-        # the refutation witnesses stop holding when sqlframe removes the deviation: that is not an alarm, unless the
-        # deviation still reproduces on the implementation (decided after T3)
-        rc, out, err, dt, cmd = ctx.coqc(core.COQ + "/props/C19_refuted.v")
-        refuted_ok = rc == 0
-        if refuted_ok:
-            ctx.prove([core.COQ + "/props/C19_refuted.v"])
-        else:
-            ctx.log("C19_refuted.v does not compile: " + (err or out)[-300:].replace("\n", " "))
     if not (os.path.exists(gen("C19Sf") + "o") and os.path.exists(gen("C19Ps") + "o")):
         # the case files need Gen.C19Sf/Ps: fall back to the translation of the pinned sources so the search can run
         for n in ("C19Sf", "C19Ps"):
@@ -1022,7 +1013,7 @@ def run(ctx: core.Ctx):
         desc = {"kind": "row-script", "script": s_str(s), "script_py": repr(s), "sqlframe": m["o_sf"], "pyspark": m["o_ps"],
                 "flags(model_sf=impl_sf,model_ps=impl_ps,impl_sf=impl_ps,in_domain,model_sf=model_ps)": r}
         if not same:
-            sig = script_signature(s, dom)
+            sig = script_signature(s, dom, [m["o_sf"], m["o_ps"]])
             if sig != KNOWN_DECIMAL:
                 s2 = shrink_script(s, libs)
                 o2 = _row_outcomes(s2, libs)
@@ -1085,7 +1076,9 @@ def run(ctx: core.Ctx):
         h_seen.add(text)
         h_items.append(text)
         h_metas.append({"variant": variant, "kind": kind, "sch": sch, "sch2": sch2, "actual": a_spec, "expected": e_spec, "order": order,
-                        "rtol": rtol, "atol": atol, "o_sf": outs[0], "o_ps": outs[1], "topdec": topdec})
+                        "rtol": rtol, "atol": atol, "o_sf": outs[0], "o_ps": outs[1],
+                        # shape of the (repaired) Decimal deviation: sqlframe's rows lost Decimals that PySpark's rows hold
+                        "topdec": topdec and (enc[0] + enc[1]).count("VDec") < (enc[2] + enc[3]).count("VDec")})
         bump("helper_variant", variant)
         bump("helper_verdict_ps", outs[1])
         bump("helper_input_kind", kind)
@@ -1161,14 +1154,6 @@ def run(ctx: core.Ctx):
         import json
         with open(os.environ["C19_DEBUG"], "w") as f:
             json.dump({"model_fail": model_fail, "thm_fail": thm_fail}, f, indent=1, default=str)
-    decimal_reproduces = any(d["signature"] == KNOWN_DECIMAL for d in ctx.deviations)
-    if refuted_ok is False and decimal_reproduces:
-        ctx.broken("proof:C19_refuted.v", "the Decimal deviation reproduces on the implementation but its Coq witness "
-                   "(C19_refuted_decimal) no longer checks against the regenerated model")
-    if refuted_ok and not decimal_reproduces:
-        ctx.broken("T3:refuted-vs-impl", "C19_refuted_decimal holds of the generated model but the deviation does not "
-                   "reproduce on the implementation")
-    ctx.coverage["refutation_witnesses_check"] = refuted_ok
     if model_fail:
         ctx.broken("T3:impl-vs-model", f"{len(model_fail)} cases where both implementations agree but a generated model "
                    f"computes something else; first: {str(model_fail[0])[:600]}", data=model_fail[:5])
